@@ -151,6 +151,8 @@ template <class S, int D> void run_unary(const std::string &mask, const std::vec
         emit("norm", show(nr));
         if (!same_scalar(nr, ln)) ofail<S, D>("length", in, show(ln), show(nr));
         { long double w = 0; for (int i = 0; i < D; ++i) w += (long double)a[i] * (long double)a[i];
+          // integer scalars: the radicand is the integer sqrnorm (checked above; unsigned wraps by definition)
+          if constexpr (!std::is_floating_point<S>::value) w = (long double)sq;
           long double r = std::sqrt(w);
           using R = decltype(nr);
           if (fin && std::isfinite((double)w) && std::fabs((long double)nr - r) > 8.0L * D * std::numeric_limits<R>::epsilon() * r + 1e-300L)
@@ -357,6 +359,7 @@ template <class S> void run_dim(int d, char kind, const std::string &mask, const
 }
 
 static int run_vec_file(const char *path) {
+    setvbuf(stdout, nullptr, _IOLBF, 0);      // so that a sanitizer abort is located to the case being evaluated
     std::ifstream in(path);
     if (!in) { fprintf(stderr, "cannot open %s\n", path); return 2; }
     std::string line;
@@ -428,7 +431,7 @@ static void query_dump(World<Mesh> &w) {
     }
     OpenVolumeMesh::NormalAttrib<Mesh> nattr(m);
     bool have_attr = m.has_face_bottom_up_incidences();
-    if (have_attr) nattr.update_face_normals();
+    if (have_attr) { std::streambuf *old = std::cerr.rdbuf(nullptr); nattr.update_face_normals(); std::cerr.rdbuf(old); }
     for (int f = 0; f < (int)m.n_faces(); ++f) {
         if (m.is_deleted(FaceHandle(f))) continue;
         FaceHandle fh(f);
